@@ -198,7 +198,11 @@ impl SlidingCounterState {
 
         // No capacity - estimate when a slot will be available
         // As time progresses, previous_weight decreases, freeing up capacity
-        let time_until_slot = self.estimate_wait_time(elapsed_ratio);
+        // (never zero: the caller reads a zero wait as "permit taken", and for very high rates
+        // the estimate rounds down to less than a nanosecond)
+        let time_until_slot = self
+            .estimate_wait_time(elapsed_ratio)
+            .max(Duration::from_nanos(1));
 
         if time_until_slot > self.timeout_duration {
             Err(self.timeout_duration)
